@@ -344,7 +344,7 @@ struct World
                                               << " but the hint is now " << hint[hv]);
                         const int S = H.m.S();
                         if (before >= 0 && before < S && piece == before) ctx.count("probe.hint_same_piece");
-                        else if (before >= 0 && before + 1 < S && piece == before + 1) ctx.count("probe.hint_next_piece");
+                        else if (before >= 0 && (long)before + 1 < S && piece == before + 1) ctx.count("probe.hint_next_piece");
                         else ctx.count(S < 32 ? "probe.hint_fallback_linear" : "probe.hint_fallback_binary");
                         if (before < 0 || before >= S) ctx.count("probe.hint_out_of_range_used");
                     }
